@@ -4,7 +4,9 @@ import (
 	"context"
 	"errors"
 	"fmt"
+	"github.com/yorkie-team/yorkie/api/converter"
 	"strings"
+	"sync"
 	gotime "time"
 	"unicode/utf16"
 
@@ -39,6 +41,8 @@ type Runner struct {
 
 // Run is the state of one execution.
 type Run struct {
+	traceMu         sync.Mutex
+	Concurrent      bool   // some requests were sent concurrently: the recorded trace is not a serial order
 	Stale           []bool // client attached under an older epoch (a compaction happened since)
 	Compactions     int
 	ref             *RefReplica
@@ -376,7 +380,11 @@ func (rn *Runner) Start(ctx context.Context, h *History) (*Run, error) {
 	}
 	for i := 0; i < h.N; i++ {
 		c := rn.S.NewClient(p.PublicKey, fmt.Sprintf("c%d-%d", i, rn.seq))
-		c.Rec = func(cr sim.CallRec) { r.Trace = append(r.Trace, cr) }
+		c.Rec = func(cr sim.CallRec) {
+			r.traceMu.Lock()
+			r.Trace = append(r.Trace, cr)
+			r.traceMu.Unlock()
+		}
 		if err := c.Activate(ctx); err != nil {
 			return nil, fmt.Errorf("activate: %w", err)
 		}
@@ -628,6 +636,46 @@ func (r *Run) exec(ctx context.Context, idx int, st *Step) StepObs {
 		second := rp.A.Resend(ctx, rp.Lost.Req, false)
 		rp.Lost = nil
 		err = second.Apply()
+	case "Sc": // the identical request sent three times at once (client-side timeout retries racing the original)
+		if !attached || rp.Inflight != nil || rp.Lost != nil || r.Stale[st.C] {
+			obs.Skipped = true
+			return obs
+		}
+		pb, cerr := converter.ToChangePack(rp.A.Doc.CreateChangePack())
+		if cerr != nil {
+			err = cerr
+			break
+		}
+		r.Concurrent = true
+		var wg sync.WaitGroup
+		results := make([]*sim.Inflight, 3)
+		for k := range results {
+			wg.Add(1)
+			go func(k int) {
+				defer wg.Done()
+				results[k] = rp.A.Resend(ctx, pb, false)
+			}(k)
+		}
+		wg.Wait()
+		r.S.Be.WaitBackgroundIdleForVerif()
+		// the client acts on the response that covers most (the others are treated as lost)
+		var best *sim.Inflight
+		for _, f := range results {
+			if f.Err == nil && (best == nil || f.Resp.Checkpoint.ServerSeq > best.Resp.Checkpoint.ServerSeq) {
+				best = f
+			}
+		}
+		// the responses the client does not act on are lost as far as delivery is concerned
+		for k := len(r.Trace) - 1; k >= 0 && k >= len(r.Trace)-len(results); k-- {
+			if best == nil || r.Trace[k].Resp != best.Resp {
+				r.Trace[k].Lost = true
+			}
+		}
+		if best == nil {
+			err = results[0].Err
+			break
+		}
+		err = best.Apply()
 	case "Sr": // response lost, identical request retried, second response applied
 		if !attached || rp.Inflight != nil || rp.Lost != nil || r.Stale[st.C] {
 			obs.Skipped = true
